@@ -66,6 +66,12 @@ impl TraceRng {
         self.perturb_call = Some(call);
         self
     }
+    /// 32 bytes from this generator, for deriving further independent streams
+    pub fn stream_seed(mut self) -> [u8; 32] {
+        let mut s = [0u8; 32];
+        self.raw_fill(&mut s);
+        s
+    }
     pub fn n_calls(&self) -> usize {
         self.calls.len()
     }
